@@ -140,3 +140,35 @@ def maximal_expressions(tree):
                 yield c
             else:
                 stack.append(c)
+
+
+PAIR_TEMPLATES = ["H1 %s H2" % op for op in ("+", "-", "*", "@", "/", "//", "%", "**", "<<", ">>", "&", "^", "|")] + [
+    "H1 and H2", "H1 or H2", "H1 < H2", "H1 in H2", "H1 if H2 else c", "a if H1 else H2", "H1 if b else H2", "H1[H2]",
+    "H1(H2)", "f(H1, k=H2)", "f(*H1, **H2)", "{H1: H2}", "[H1 for i in H2]", "[e for i in H1 if H2]",
+    "lambda p=H1: H2", "f'{H1:{H2}}'", "f'{H1!r}{H2}'", "H1[H2:]", "a[H1:H2]", "a[H1, H2]", "(H1, H2)", "(x := H1)[H2]",
+    "H1 < b < H2", "-H1 ** H2", "H1.attr(H2)", "{**H1, k: H2}", "not H1 == H2", "await H1 ** H2",
+]
+
+
+class _Sub2(ast.NodeTransformer):
+    def __init__(self, r1, r2):
+        self.r = {"H1": r1, "H2": r2}
+
+    def visit_Name(self, node):
+        if node.id in self.r:
+            return copy.deepcopy(self.r[node.id])
+        return node
+
+
+def pair_templates():
+    out = []
+    for t in PAIR_TEMPLATES:
+        try:
+            out.append((t, parse(t)))
+        except SyntaxError:
+            pass
+    return out
+
+
+def compose2(tmpl_tree, p1, p2):
+    return ast.fix_missing_locations(_Sub2(p1, p2).visit(copy.deepcopy(tmpl_tree)))
